@@ -2250,8 +2250,9 @@ impl<'a> UserModel<'a> {
             old_value: self.get_timezone(),
             new_value: timezone.to_string(),
         }];
+        self.model.set_timezone(timezone)?;
         self.push_diff_list(diff_list);
-        self.model.set_timezone(timezone)
+        Ok(())
     }
 
     /// Sets the locale for the model
@@ -2260,8 +2261,9 @@ impl<'a> UserModel<'a> {
             old_value: self.get_locale(),
             new_value: locale.to_string(),
         }];
+        self.model.set_locale(locale)?;
         self.push_diff_list(diff_list);
-        self.model.set_locale(locale)
+        Ok(())
     }
 
     /// Gets the timezone of the model
